@@ -134,12 +134,12 @@ fn gen_case(r: &mut Rng, n_paths: usize) -> Case {
     }
     let dirs: Vec<String> = dirs.into_iter().collect();
     let mut files = vec![];
-    if !r.chance(1, 10) { files.push((String::new(), gen_file(r, &vocab, 5))); }
+    if !r.chance(1, 10) { files.push((String::new(), if r.chance(1, 12) { gen_hollow(r) } else { gen_file(r, &vocab, 5) })); }
     if !dirs.is_empty() {
         let n_sub = [0, 1, 1, 2, 3][r.below(5)];
         for _ in 0..n_sub {
             let d = r.pick(&dirs).clone();
-            if !files.iter().any(|(x, _)| *x == d) { files.push((d, gen_file(r, &vocab, 3))); }
+            if !files.iter().any(|(x, _)| *x == d) { files.push((d, if r.chance(1, 8) { gen_hollow(r) } else { gen_file(r, &vocab, 3) })); }
         }
     }
     files.sort_by_key(|(d, _)| (d.matches('/').count() + usize::from(!d.is_empty()), d.clone()));
@@ -150,6 +150,191 @@ fn gen_case(r: &mut Rng, n_paths: usize) -> Case {
     let global = r.chance(1, 5).then(|| gen_file(r, &vocab, 3));
     let info = r.chance(1, 5).then(|| gen_file(r, &vocab, 3));
     Case { global, info, files, paths }
+}
+
+/// A `.gitignore` content without any effective pattern: empty, comments, blank lines, lines of
+/// spaces (Git strips unescaped trailing spaces), a lone `!` or `/`, LF or CRLF terminated, with
+/// or without a final newline, optionally behind a UTF-8 BOM.  (No tab / form-feed lines: known
+/// finding `whitespace-only-pattern-dropped`.)
+fn gen_hollow(r: &mut Rng) -> String {
+    const LINES: &[&str] = &["# comment", "", "#", "   ", " ", "#!a", "# a*", "#a", "", "# comment"];
+    let n = r.below(4);
+    let mut s = String::new();
+    if r.chance(1, 12) { s.push('\u{feff}'); }
+    for _ in 0..n {
+        s.push_str(if r.chance(1, 10) { if r.chance(1, 2) { "!" } else { "/" } } else { *r.pick(LINES) });
+        s.push_str(if r.chance(1, 8) { "\r\n" } else { "\n" });
+    }
+    if n > 0 && r.chance(1, 8) { s.pop(); while s.ends_with('\r') { s.pop(); } }
+    s
+}
+
+#[derive(Clone, Copy, PartialEq, Eq, Debug)]
+enum Kind { Absent, Patterns, Hollow }
+
+/// what `gen_stack_case` built: the kind of every level (0 = global excludes, 1 = info/exclude,
+/// 2 = root `.gitignore`, 3.. = the `.gitignore` of the spine directories) and the spine
+struct Stack { kinds: Vec<Kind>, dirs: Vec<String>, triple: (usize, usize, usize) }
+
+fn level_name(i: usize) -> String { match i { 0 => "global".into(), 1 => "info".into(), 2 => "root".into(), n => format!("d{}", n - 2) } }
+
+/// Patterns of an upper ignore source that reach deep into the spine: name globs, paths anchored at
+/// the source's own directory, `**/`, directory-only patterns, and "exclude broadly, re-include one".
+/// `rel` = the spine components below the source's directory.
+fn gen_upper(r: &mut Rng, vocab: &[&str], rel: &[&str]) -> String {
+    let n = 1 + r.below(3);
+    let mut lines: Vec<String> = vec![];
+    let name = |r: &mut Rng| -> String { r.pick(vocab).to_string() };
+    let glob = |r: &mut Rng| -> String {
+        let v = r.pick(vocab).to_string();
+        match r.below(7) { 0 => format!("{v}*"), 1 => format!("*{v}"), 2 => "*".into(), 3 => "?".into(), 4 => "[ab]*".into(), 5 => "*.c".into(), _ => v }
+    };
+    let deep = |m: usize, leaf: String| -> String {
+        let mut cs: Vec<String> = rel[..m].iter().map(|c| c.to_string()).collect();
+        cs.push(leaf);
+        cs.join("/")
+    };
+    for _ in 0..n {
+        match r.below(8) {
+            0 | 1 => { let g = glob(r); lines.push(g); }
+            2 => { let m = r.below(rel.len() + 1); let l = name(r); let p = deep(m, l); lines.push(if m == 0 || r.chance(2, 3) { format!("/{p}") } else { p }); }
+            3 => { let l = glob(r); lines.push(if !rel.is_empty() && r.chance(1, 2) { format!("{}/**/{l}", rel[0]) } else { format!("**/{l}") }); }
+            4 => { let d = if !rel.is_empty() && r.chance(2, 3) { rel[r.below(rel.len())].to_string() } else { name(r) }; lines.push(format!("{d}/")); }
+            5 | 6 => {
+                // exclude broadly, then re-include something more specific (from above)
+                let m = r.below(rel.len() + 1);
+                match r.below(3) {
+                    0 => { let g = glob(r); lines.push(g); lines.push(format!("!{}", name(r))); }
+                    1 => { let p = deep(m, "*".into()); lines.push(format!("/{p}")); let l = name(r); lines.push(format!("!/{}", deep(m, l))); }
+                    _ => { lines.push("*".into()); lines.push("!*/".into()); lines.push(format!("!{}", glob(r))); }
+                }
+            }
+            _ => lines.push(gen_pattern(r, vocab)),
+        }
+    }
+    if r.chance(1, 5) { lines.push(format!("!{}", name(r))); }
+    let mut s = String::new();
+    for mut l in lines {
+        if git_prefix_quirk(&l) { continue; }
+        if l.starts_with("!$") { l.remove(0); }
+        s.push_str(&l);
+        s.push('\n');
+    }
+    if r.chance(1, 10) { s.pop(); }
+    while s.ends_with('\r') { s.pop(); }
+    s
+}
+
+/// Stacks of 3 and 4 ignore levels with a pattern-less file in the middle: some level `i` has
+/// patterns (global excludes, info/exclude, the root `.gitignore` or a spine directory's), a level
+/// `j > i` has a `.gitignore` (or base file) without any effective pattern, a level `k > j` has
+/// its own ignore file (any content), and most queried files live in or below the directory of
+/// level `k`, named so that the patterns of level `i` (including its negations) decide them.
+/// The remaining levels are absent, pattern-less or ordinary at random.
+fn gen_stack_case(r: &mut Rng, depth: usize, n_paths: usize) -> (Case, Stack) {
+    let nv = 3 + r.below(3);
+    let vocab: Vec<&str> = (0..nv).map(|_| if r.chance(4, 5) { NAMES[r.below(8)] } else { *r.pick(NAMES) }).collect();
+    let spine: Vec<&str> = (0..depth).map(|_| *r.pick(&vocab)).collect();
+    let mut dirs: Vec<String> = vec![String::new()];
+    for t in 1..=depth { dirs.push(spine[..t].join("/")); }
+    let n_levels = 3 + depth;
+    // the triple i < j < k
+    let lo = if r.chance(1, 2) { 2 } else { 0 };
+    let mut pool: Vec<usize> = (lo..n_levels).collect();
+    let mut tri = vec![];
+    for _ in 0..3 { let x = pool.remove(r.below(pool.len())); tri.push(x); }
+    tri.sort();
+    let (i, j, k) = (tri[0], tri[1], tri[2]);
+    let mut kinds: Vec<Kind> = (0..n_levels).map(|l| {
+        let absent_w = if l < 2 { 4 } else { 3 };
+        match r.below(6) { x if x < absent_w => Kind::Absent, 4 => Kind::Hollow, _ => Kind::Patterns }
+    }).collect();
+    kinds[i] = Kind::Patterns;
+    kinds[j] = Kind::Hollow;
+    let rel_of = |l: usize| -> &[&str] { if l <= 2 { &spine[..] } else { &spine[l - 2..] } };
+    let mut content: Vec<Option<String>> = vec![None; n_levels];
+    for l in 0..n_levels {
+        content[l] = match kinds[l] {
+            Kind::Absent => None,
+            Kind::Hollow => Some(gen_hollow(r)),
+            Kind::Patterns => Some(if l == i || r.chance(1, 2) { gen_upper(r, &vocab, rel_of(l)) } else { gen_file(r, &vocab, 3) }),
+        };
+    }
+    // level k: any content — mostly something that does not decide the queried names itself
+    if kinds[k] == Kind::Absent || r.chance(1, 2) {
+        let (kind, txt) = match r.below(6) {
+            0 => (Kind::Hollow, gen_hollow(r)),
+            1 => (Kind::Patterns, gen_file(r, &vocab, 3)),
+            2 => (Kind::Patterns, format!("!{}\n", r.pick(&vocab))),
+            3 => (Kind::Patterns, "*.tmp\n# local\n".to_string()),
+            4 => (Kind::Patterns, "/zz\nzz/\n".to_string()),
+            _ => (Kind::Patterns, "zz\n".to_string()),
+        };
+        kinds[k] = kind;
+        content[k] = Some(txt);
+    }
+    // queried files: mostly in or below the directory of level k
+    let kdir = k.max(2) - 2;
+    let mut paths: Vec<String> = vec![];
+    let mut tries = 0;
+    while paths.len() < n_paths && tries < 200 {
+        tries += 1;
+        let t = if r.chance(2, 3) { kdir + r.below(depth + 1 - kdir) } else { r.below(depth + 1) };
+        let mut cs: Vec<&str> = spine[..t].to_vec();
+        if r.chance(1, 4) { cs.push(*r.pick(&vocab)); }
+        cs.push(*r.pick(&vocab));
+        let q = cs.join("/");
+        let clash = paths.iter().any(|o| o.starts_with(&format!("{q}/")) || q.starts_with(&format!("{o}/")) || *o == q)
+            || dirs.iter().any(|d| *d == q || d.starts_with(&format!("{q}/")));
+        if !clash { paths.push(q); }
+    }
+    let mut files = vec![];
+    for l in 2..n_levels {
+        if let Some(t) = &content[l] {
+            files.push((dirs[l - 2].clone(), t.clone()));
+            if r.chance(1, 4) { paths.push(if l == 2 { ".gitignore".into() } else { format!("{}/.gitignore", dirs[l - 2]) }); }
+        }
+    }
+    (Case { global: content[0].clone(), info: content[1].clone(), files, paths }, Stack { kinds, dirs, triple: (i, j, k) })
+}
+
+/// one stack case: snapshot vs Git vs model, raw chains (the whole stack, and only the triple), tallies
+fn stack_case(out: &mut Out, env: &mut Env, r2: &mut Rng, c: &Case, st: &Stack) {
+    let git = snap_case(out, env, c);
+    let (i, j, k) = st.triple;
+    out.tally("stack", &format!("upper={} pattern-less={} below={}", level_name(i), level_name(j), level_name(k)));
+    out.tally("stack-levels", &st.kinds.iter().filter(|x| **x != Kind::Absent).count().to_string());
+    // which level decided, and is there a pattern-less level between it and a deeper ignore file
+    // whose directory contains the path?  (the situation the chain must get right)
+    let excl = env.excludes_path().display().to_string();
+    for (p, g) in c.paths.iter().zip(&git) {
+        let Some((src, pat)) = g else { continue };
+        let lvl = if *src == excl { 0 } else if src == ".git/info/exclude" { 1 } else {
+            let d = src.strip_suffix(".gitignore").unwrap_or(src).trim_end_matches('/');
+            match st.dirs.iter().position(|x| x == d) { Some(t) => t + 2, None => continue }
+        };
+        let under = |l: usize| l <= 2 || p.starts_with(&format!("{}/", st.dirs[l - 2]));
+        let n = st.kinds.len();
+        let cut = (lvl + 1..n).any(|h| st.kinds[h] == Kind::Hollow && under(h) && (h + 1..n).any(|b| st.kinds[b] != Kind::Absent && under(b)));
+        if cut {
+            out.tally("decided-above-pattern-less-level", if pat.starts_with('!') { "re-included" } else { "ignored" });
+            out.nontrivial(("above-hollow", &c.files, &c.global, &c.info, p));
+        }
+    }
+    let mut qs: BTreeSet<String> = BTreeSet::new();
+    for p in &c.paths {
+        let cs: Vec<&str> = p.split('/').collect();
+        for t in 1..=cs.len() { qs.insert(cs[..t].join("/")); }
+    }
+    let qs: Vec<String> = qs.into_iter().collect();
+    let level = |l: usize| -> Option<(String, String)> {
+        match l { 0 => c.global.clone().map(|t| (String::new(), t)), 1 => c.info.clone().map(|t| (String::new(), t)),
+                  _ => c.files.iter().find(|(d, _)| *d == st.dirs[l - 2]).cloned() }
+    };
+    let spec: Vec<(String, String)> = (0..st.kinds.len()).filter_map(level).collect();
+    raw_case(out, r2, &spec, &qs);
+    let tri: Vec<(String, String)> = [i, j, k].into_iter().filter_map(level).collect();
+    if tri.len() < spec.len() { raw_case(out, r2, &tri, &qs); }
 }
 
 struct Env {
@@ -217,6 +402,10 @@ impl Env {
     }
     /// Git's answer for each path: Some(pattern text) of the deciding pattern, None = no pattern matched
     fn git_check(&self, paths: &[String]) -> Vec<Option<String>> {
+        self.git_check_src(paths).into_iter().map(|o| o.map(|(_, pat)| pat)).collect()
+    }
+    /// same, with the source file Git names for the deciding pattern: Some((source, pattern text))
+    fn git_check_src(&self, paths: &[String]) -> Vec<Option<(String, String)>> {
         let mut child = Command::new("git").current_dir(&self.root)
             .env("HOME", self.home.path()).env("XDG_CONFIG_HOME", self.home.path().join("xdg")).env("GIT_CONFIG_NOSYSTEM", "1")
             .arg("-c").arg(format!("core.excludesFile={}", self.excludes_path().display()))
@@ -234,7 +423,7 @@ impl Env {
         (0..paths.len()).map(|i| {
             assert_eq!(fields[4 * i + 3], paths[i].as_bytes(), "git answered out of order");
             let src = fields[4 * i];
-            if src.is_empty() { None } else { Some(String::from_utf8_lossy(fields[4 * i + 2]).to_string()) }
+            if src.is_empty() { None } else { Some((String::from_utf8_lossy(src).to_string(), String::from_utf8_lossy(fields[4 * i + 2]).to_string())) }
         }).collect()
     }
 }
@@ -261,12 +450,14 @@ fn features(out: &mut Out, txt: &str) {
     }
 }
 
-fn snap_case(out: &mut Out, env: &mut Env, c: &Case) {
+/// returns Git's answers (deciding source, pattern text) per queried path
+fn snap_case(out: &mut Out, env: &mut Env, c: &Case) -> Vec<Option<(String, String)>> {
     env.materialise(c);
-    let git = env.git_check(&c.paths);
+    let git_src = env.git_check_src(&c.paths);
+    let git: Vec<Option<String>> = git_src.iter().map(|o| o.as_ref().map(|(_, pat)| pat.clone())).collect();
     let tracked = match guard(|| env.jj_snapshot()) {
         Ok(t) => t,
-        Err(e) => { out.impl_only(); out.oracle_fail("gitignore:panic", format!("snapshot panicked: {e}")); return; }
+        Err(e) => { out.impl_only(); out.oracle_fail("gitignore:panic", format!("snapshot panicked: {e}")); return git_src; }
     };
     let jj: Vec<bool> = c.paths.iter().map(|p| !tracked.contains(p)).collect();
     let mut base = vec![];
@@ -288,6 +479,7 @@ fn snap_case(out: &mut Out, env: &mut Env, c: &Case) {
                                      git[i], jj[i], c.global, c.info, c.files, c.paths));
     }
     env.reset();
+    git_src
 }
 
 /// `raw`: explicit chains through the public API, files and directories, no disk
@@ -392,20 +584,29 @@ pub fn run(cfg: &Cfg, out: &mut Out) {
         for line in txt.lines().filter(|l| !l.is_empty() && !l.starts_with("//")) {
             let c = parse_probe(line);
             let before = out.failures.len();
-            snap_case(out, &mut env, &c);
+            let _ = snap_case(out, &mut env, &c);
             for f in &out.failures[before..] { eprintln!("PROBE-DIFF {}: {}", f.signature, f.detail); }
         }
         return;
     }
     finding_cases(out, &mut env);
-    let n_cases = cfg.n(150, 1500);
+    // stacks with a pattern-less ignore file in the middle (3 dir levels first, then 3 or 4)
+    let n_stack = cfg.n(50, 500);
+    let mut rs = cfg.rng(2829);
+    let mut rs2 = cfg.rng(2830);
+    for i in 0..n_stack {
+        let (depth, n_paths) = if i < n_stack / 3 { (2, 6) } else { (2 + rs.below(2), 10) };
+        let (c, st) = gen_stack_case(&mut rs, depth, n_paths);
+        stack_case(out, &mut env, &mut rs2, &c, &st);
+    }
+    let n_cases = cfg.n(140, 1400);
     let mut r = cfg.rng(28);
     let mut r2 = cfg.rng(2828);
     for i in 0..n_cases {
         // sizes small → large
         let n_paths = if i < 20 { 6 } else { 15 };
         let c = gen_case(&mut r, n_paths);
-        snap_case(out, &mut env, &c);
+        let _ = snap_case(out, &mut env, &c);
         // raw queries on the same ignore files: all queried files plus every ancestor directory,
         // against the chain of one leaf directory and against a shuffled chain
         let mut qs: BTreeSet<String> = BTreeSet::new();
@@ -427,5 +628,5 @@ pub fn run(cfg: &Cfg, out: &mut Out) {
             raw_case(out, &mut r2, &s2, &qs);
         }
     }
-    out.note(format!("{n_cases} working copies (one git subprocess and two snapshots each), ~15 untracked files each, 0–4 .gitignore files at root/sub-directories, global excludes and info/exclude in 1/5 of the cases each; raw matches_file/matches_dir queries over every queried path and ancestor directory"));
+    out.note(format!("{n_stack} stack working copies (3–6 ignore levels among global excludes, info/exclude, root and 2–3 nested directories; a level with patterns, below it a pattern-less file, below that another ignore file; 6–10 untracked files mostly at the bottom) + {n_cases} random working copies (~15 untracked files each, 0–4 .gitignore files at root/sub-directories, 1/8 of them pattern-less, global excludes and info/exclude in 1/5 of the cases each); one git subprocess and two snapshots each; raw matches_file/matches_dir queries over every queried path and ancestor directory"));
 }
